@@ -150,7 +150,12 @@ pub fn run_oracle(v: &Val) -> Val {
         let content = &buf[*rs..hend];
         let term: &[u8] = if crlf { b"\r\n" } else { b"\n" };
         let terminated = hend < *rend;
-        if only {
+        if re.find(content).is_none() {
+            // the searcher delivered a line the pattern does not match (C01's business, e.g. D1);
+            // C19 only demands that such a line is printed unaltered
+            expected.extend_from_slice(&buf[*rs..*rend]);
+            if !terminated { expected.extend_from_slice(term); }
+        } else if only {
             for c in re.captures_iter(content) {
                 let mut e = vec![];
                 c.expand(&template, &mut e);
